@@ -40,6 +40,38 @@ def run(ctx):
                 if a < b:
                     shared = shapes.point_ids(objs[a]) & shapes.point_ids(objs[b])
                     ctx.check(not shared, "two objects share Point2D cells", {**desc, "vars": (a, b)})
+    # ---------- (1b) curved objects (interior control points are Point2D objects too)
+    from shapepy import Primitive, JordanCurve, SimpleShape
+    from harness.props.c04 import rounded
+    def ctrl_snapshot(X):
+        return [[tuple(p) for p in sg.ctrlpoints] for j in X.jordans for sg in j.segments]
+    curved = [("circle", lambda: Primitive.circle(radius=2.0, center=(1.0, 1.0), ndivangle=8)),
+              # float control points: containment tests project points with Newton's iteration, which explodes on Fractions
+              ("rounded-quadratic", lambda: SimpleShape(JordanCurve.from_ctrlpoints([[(float(x), float(y)) for x, y in c] for c in rounded(shapes.rand_simple_vs(rng, 0, 0, R=5, n=5), cubic=False)]))),
+              ("rounded-cubic", lambda: SimpleShape(JordanCurve.from_ctrlpoints([[(float(x), float(y)) for x, y in c] for c in rounded(shapes.rand_simple_vs(rng, 0, 0, R=5, n=4), cubic=True)]))),
+              ("circle-inverted", lambda: ~Primitive.circle(radius=1, ndivangle=4))]
+    producers = [("copy", lambda S: copy.copy(S)), ("deepcopy", lambda S: copy.deepcopy(S)), ("invert", lambda S: ~S), ("neg", lambda S: -S),
+                 ("SimpleShape(jordan)", lambda S: SimpleShape(S.jordans[0])), ("copy(jordan)", lambda S: SimpleShape(copy.copy(S.jordans[0]))),
+                 ("or Empty", lambda S: S | EmptyShape()), ("and Whole", lambda S: S & WholeShape()), ("Empty or", lambda S: EmptyShape() | S),
+                 ("or inner", lambda S: S | Primitive.square(side=0.1, center=(0.5, 0.5)) if float(S) > 0 else S & WholeShape())]
+    for cname, mk in curved:
+        for pname, prod in producers:
+            S = mk()
+            snap0 = ctrl_snapshot(S)
+            ctx.case("curved-copy", (cname, pname))
+            try:
+                R = prod(S)
+            except Exception as ex:
+                ctx.fail("producer raised on a curved shape", {"shape": cname, "producer": pname}, got=repr(ex)); continue
+            ctx.check(ctrl_snapshot(S) == snap0, "producing a copy/result changed the curved operand", {"shape": cname, "producer": pname})
+            ctx.check(not (shapes.point_ids(R) & shapes.point_ids(S)), "curved result shares Point2D objects with its source", {"shape": cname, "producer": pname})
+            rsnap = ctrl_snapshot(R)
+            R.move(3, 0.5); R.scale(2, 3)
+            ctx.check(ctrl_snapshot(S) == snap0, "transforming the result changed the curved source", {"shape": cname, "producer": pname})
+            R2 = prod(S)
+            r2 = ctrl_snapshot(R2)
+            S.rotate(90, degrees=True); S.move(-1, 4)
+            ctx.check(ctrl_snapshot(R2) == r2, "transforming the source changed an earlier curved result", {"shape": cname, "producer": pname})
     # ---------- (2) operators and queries on shapes of every kind
     m = 120 if ctx.quick else 2500
     binops = ["or", "and", "sub", "xor", "add", "mul"]
